@@ -546,7 +546,7 @@ func hVerifyScenario(id string, scope int) {
 			nProofs = vLen(0, 2)
 		}
 	} else {
-		vAssume(w.vmKind == 0 && !w.proofHasExpires && w.proofCreated.sec == issued.sec)
+		vAssume(hAll(w.vmKind == 0, !w.proofHasExpires, w.proofCreated.sec == issued.sec))
 	}
 	switch format {
 	case 0:
@@ -567,7 +567,7 @@ func hVerifyScenario(id string, scope int) {
 	}
 	hasRaw := format >= 2
 	if scope == 1 {
-		vAssume(w.storeMode == 0 && w.statusMode != 1)
+		vAssume(hAnd(w.storeMode == 0, w.statusMode != 1))
 	}
 
 	// --- trust configuration: per non-base type a list whose second entry differs from the issuer at most in its
@@ -615,46 +615,35 @@ func hVerifyScenario(id string, scope int) {
 	v := hNewVerifier(w, tc)
 	err := v.Verify(c, allowUntrusted, checkSignature, validAt)
 
-	// --- reference: the conjunction the property states. Written over local scalars with every call hoisted, so that
-	// the engine evaluates it as one formula (no forks inside the oracle).
+	// --- reference: the conjunction the property states, over the symbolic facts of the world. Written with hAll/hAny
+	// on evaluated operands so that the engine evaluates it as one formula (no forks inside the oracle).
 	storeMode, statusMode := w.storeMode, w.statusMode
 	resolveOK, keyOK, cryptoOK := w.resolveOK, w.keyOK, w.cryptoOK
 	headersOK, kidAlgOK, jwxOK, algSupported := w.headersOK, w.kidAlgOK, w.jwxOK, w.algSupported
 	vmKind, proofHasExpires := w.vmKind, w.proofHasExpires
-	requiredFields := hasBaseType && hasContext && issuer != "" && hasID
-	requiredFields = requiredFields && !issuedIsZero
+	requiredFields := hAll(hasBaseType, hasContext, issuer != "", hasID, !issuedIsZero)
 	atMostTwoTypes := nTypes <= 2
-	notRevoked := storeMode == 0 && statusMode != 1
+	notRevoked := hAnd(storeMode == 0, statusMode != 1)
 	allTrusted := true
 	for _, ti := range typeIdx {
 		if ti != 0 {
-			t := trusted[ti]
-			allTrusted = allTrusted && t
+			allTrusted = hAnd(allTrusted, trusted[ti])
 		}
 	}
-	trustOK := allTrusted || allowUntrusted
-	inWindow := hGE(at, 5, issued)
-	if expires != nil {
-		notExpired := hGE(*expires, 5, at)
-		inWindow = inWindow && notExpired
-	}
-	proofCreatedOK := hGE(at, 5, w.proofCreated)
-	proofNotExpired := hGE(w.proofExpires, 5, at)
-	proofInWindow := proofCreatedOK && (!proofHasExpires || proofNotExpired)
-	keyBound := vmKind == 0 || vmKind == 3
+	trustOK := hOr(allTrusted, allowUntrusted)
+	inWindow := hInWindow(at, issued, expires, 5)
+	proofInWindow := hAnd(hGE(at, 5, w.proofCreated), hOr(!proofHasExpires, hGE(w.proofExpires, 5, at)))
+	keyBound := hOr(vmKind == 0, vmKind == 3)
 	sigOK := false
 	switch format {
 	case 1, 2:
-		sigOK = nProofs == 1
-		sigOK = sigOK && keyBound && proofInWindow && keyOK && cryptoOK
+		sigOK = hAll(nProofs == 1, keyBound, proofInWindow, keyOK, cryptoOK)
 	case 3:
-		sigOK = headersOK && kidAlgOK && keyOK && algSupported && jwxOK && (keyBound || vmKind == 2)
+		sigOK = hAll(headersOK, kidAlgOK, keyOK, algSupported, jwxOK, hOr(keyBound, vmKind == 2))
 	}
-	issuerOK := issuerIsDID
-	issuerOK = issuerOK && resolveOK && (!hasRaw || headersOK)
-	authentic := !checkSignature || (issuerOK && sigOK)
-	valid := requiredFields && atMostTwoTypes
-	valid = valid && notRevoked && trustOK && inWindow && authentic
+	issuerOK := hAll(issuerIsDID, resolveOK, hOr(!hasRaw, headersOK))
+	authentic := hOr(!checkSignature, hAnd(issuerOK, sigOK))
+	valid := hAll(requiredFields, atMostTwoTypes, notRevoked, trustOK, inWindow, authentic)
 
 	if err == nil {
 		vCover("accepted")
@@ -669,7 +658,7 @@ func hVerifyScenario(id string, scope int) {
 		vAssert(w.statusAsked == 1, id+".statuslist_consulted: the status list verifier was not consulted")
 		if checkSignature {
 			vCover("accepted-with-signature")
-			vAssert(issuerIsDID && resolveOK, id+".issuer_resolved: accepted although the issuer's DID document does not resolve")
+			vAssert(hAnd(issuerIsDID, resolveOK), id+".issuer_resolved: accepted although the issuer's DID document does not resolve")
 			vAssert(sigOK, id+".signature_ok: accepted although the signature check of the property fails")
 			vAssert(len(w.didAsked) == 1 && w.didAsked[0].id.String() == issuer, id+".resolved_the_issuer: the DID resolved is not the issuer")
 			vAssert(!w.didAsked[0].md.AllowDeactivated, id+".no_deactivated_issuer: a deactivated issuer document was allowed")
@@ -689,21 +678,20 @@ func hVerifyScenario(id string, scope int) {
 	} else {
 		vCover("rejected")
 		vAssert(!valid, id+".valid_is_accepted: a credential satisfying every condition of the property was rejected")
-		if requiredFields && atMostTwoTypes {
-			revokedInStore := storeMode == 1
-			revokedOnList := storeMode == 0 && statusMode == 1
-			untrusted := notRevoked && !trustOK
-			isRevoked := errors.Is(err, types.ErrRevoked)
-			isUntrusted := errors.Is(err, types.ErrUntrusted)
-			vAssert(!revokedInStore || isRevoked, id+".revoked_reported_store: a revoked credential is not reported as revoked")
-			vAssert(!revokedOnList || isRevoked, id+".revoked_reported_statuslist: a credential revoked on its status list is not reported as revoked")
-			vAssert(!untrusted || isUntrusted, id+".untrusted_reported: untrusted issuer is not reported as untrusted")
-			if isRevoked {
-				vCover("reported-revoked")
-			}
-			if isUntrusted {
-				vCover("reported-untrusted")
-			}
+		isRevoked := errors.Is(err, types.ErrRevoked)
+		isUntrusted := errors.Is(err, types.ErrUntrusted)
+		wellFormed := hAnd(requiredFields, atMostTwoTypes)
+		revokedInStore := hAnd(wellFormed, storeMode == 1)
+		revokedOnList := hAll(wellFormed, storeMode == 0, statusMode == 1)
+		untrusted := hAll(wellFormed, notRevoked, !trustOK)
+		vAssert(hOr(!revokedInStore, isRevoked), id+".revoked_reported_store: a revoked credential is not reported as revoked")
+		vAssert(hOr(!revokedOnList, isRevoked), id+".revoked_reported_statuslist: a credential revoked on its status list is not reported as revoked")
+		vAssert(hOr(!untrusted, isUntrusted), id+".untrusted_reported: untrusted issuer is not reported as untrusted")
+		if isRevoked {
+			vCover("reported-revoked")
+		}
+		if isUntrusted {
+			vCover("reported-untrusted")
 		}
 	}
 	// H11d, soft-fail rule: a status list that cannot be checked is not fatal
